@@ -304,6 +304,25 @@ func runProperty(o *Options, pc *PropertyConfig) int {
 			go func(i int, j job) {
 				defer wg2.Done()
 				defer func() { <-sem2 }()
+				// first the relevancy slice of the same obligation (drops assumptions that share no symbol
+				// with the goal, e.g. boxing axioms of logging arguments): "unsat" on the slice proves the
+				// obligation; "sat" on the slice is a counterexample candidate (the dropped assumptions
+				// constrain other symbols only) and is reported as a refutation obtained from the slice
+				if j.ob.goal != "false" {
+					snap := j.ar.ex.ctx.snapshot()
+					sl := snap.sliceLines(j.ob.lines, j.ob.goal)
+					var vals []string
+					for _, k := range sortedKeys(j.ob.Inputs) {
+						vals = append(vals, j.ob.Inputs[k])
+					}
+					q := snap.query(strings.Join(sl, "\n") + "\n(assert (not " + j.ob.goal + "))\n")
+					rs := solve(smtDir, fmt.Sprintf("slice_%04d", i), q, vals, timeoutMs, false)
+					if rs.Status == "unsat" || rs.Status == "sat" {
+						rs.Solver += "(relevancy-slice)"
+						j.ob.Result = rs
+						return
+					}
+				}
 				r := solve(smtDir, fmt.Sprintf("retry_%04d", i), j.ob.Query, nil, timeoutMs*4, false)
 				if r.Status == "unsat" || r.Status == "sat" {
 					j.ob.Result = r
